@@ -1084,6 +1084,43 @@ impl TcpClient {
     }
 }
 
+impl TcpClient {
+    /// A neighbouring flow: same ports and destination, source address differing in one bit,
+    /// other data. Any state shared between the two flows shows as interference (C08).
+    pub fn neighbour(&self, rng: &mut Rng, focus: &Focus) -> TcpClient {
+        let mut a = self.a.clone();
+        a.src = match a.src {
+            IpAddr::V4(x) => IpAddr::V4(Ipv4Addr::from(u32::from(x) ^ (1u32 << rng.below(32)))),
+            IpAddr::V6(x) => IpAddr::V6(Ipv6Addr::from(u128::from(x) ^ (1u128 << rng.below(128)))),
+        };
+        let n = rng.range(1, 2);
+        let msgs = (0..n).map(|_| Message::gen(rng, focus, true)).collect();
+        TcpClient {
+            peer: self.peer,
+            a,
+            sport: self.sport,
+            dport: self.dport,
+            isn: rng.edge_u32(),
+            msgs,
+            syn_flags: F_SYN,
+            data_flags: F_PSH | F_ACK,
+            first_ack: AckMode::Correct,
+            retry_correct: false,
+            pre_data: false,
+            close: 0,
+            start_us: self.start_us + rng.below(200_000),
+            gap_us: self.gap_us,
+            rto_us: self.rto_us,
+            ttl: self.ttl,
+            window: rng.u16(),
+            options: Vec::new(),
+            cookie: None,
+            syn_tries: 0,
+            sent_data: false,
+        }
+    }
+}
+
 impl UdpClient {
     pub fn twin(&self, plan: &Plan, rng: &mut Rng) -> UdpClient {
         let v6 = if rng.chance(1, 2) { !matches!(self.a.src, IpAddr::V6(_)) } else { matches!(self.a.src, IpAddr::V6(_)) };
